@@ -3791,11 +3791,14 @@ func (s *ImmuStore) TruncateUptoTx(minTxID uint64) error {
 				merr.Append(err)
 				continue
 			}
-			defer s.releaseVLog(vLogID)
 
 			s.logger.Infof("truncating vlog '%d' at offset '%d'", vLogID, offset)
 			err = vlog.DiscardUpto(offset)
 			merr.Append(err)
+
+			// release each value log as soon as it was truncated: holding it (deferred) while
+			// waiting for the next one deadlocks with a concurrent truncation doing the same
+			merr.Append(s.releaseVLog(vLogID))
 		}
 	}
 
